@@ -425,6 +425,26 @@ def check_sanitiser(unit, fn, em):
             em.violation(an, name + ': output %d' % pi, 'operand %d is not assigned the re-indexed, useless-state-free copy of itself' % pi, 'sanitiser')
 
 
+def check_no_early_verdict(unit, fn, em, short):
+    """a dispatcher returns only what the selected algorithm returned: every `return` lies inside the switch over the
+    options (or is the one after it); an earlier `return <verdict>` answers without running the selected algorithm —
+    e.g. a shortcut taken when both operands happen to share their rule store, which makes the answer depend on how an
+    operand was created (seed C11-5)"""
+    from vfacts import enclosing
+    sw = [n for n in fn.walk(lambdas=False) if n['k'] == 'SwitchStmt']
+    if not sw:
+        return
+    first_sw = sw[0]
+    inside = {id(x) for s in sw for x in walk(s)}
+    swline = unit.loc(first_sw)[1]
+    bad = [r for r in fn.walk(lambdas=False) if r['k'] == 'ReturnStmt' and id(r) not in inside and unit.loc(r)[1] < swline and enclosing(r, ('LambdaExpr',)) is None]
+    name = '%s: verdicts come from the selected algorithm' % short
+    if bad:
+        em.violation(bad[0], name, 'this `return` precedes the switch over the algorithm selection: the verdict is produced without running the selected algorithm on the prepared operands', 'early-verdict')
+    else:
+        em.ok(first_sw, name, 'no return before the switch over the options', 'early-verdict')
+
+
 def run(unit, em):
     masks = None
     for fn in unit.functions:
@@ -438,5 +458,6 @@ def run(unit, em):
                     em.unknown(fn, fn.q, 'FLAG_MASK_* values not all visible in this unit (%s)' % sorted(masks), 'switch')
                     continue
                 check_dispatcher(unit, fn, em, masks)
+                check_no_early_verdict(unit, fn, em, short)
             else:
                 check_sanitiser(unit, fn, em)
